@@ -18,8 +18,10 @@ instance : NatCast Frac := ⟨Frac.ofNat⟩
 instance : LT Frac := ⟨fun a b => Frac.lt a b = true⟩
 instance : DecidableRel (α := Frac) (· < ·) := fun a b => inferInstanceAs (Decidable (Frac.lt a b = true))
 
-/-- edge length as the library reads it: `None` is 0 -/
-def fracLen (t : T) : Frac := match t.len with | some f => f | none => 0
+/-- edge length as the library reads it: `None` is 0.  (A `Frac` with denominator 0 denotes no number; the protocol
+parser never produces one — `Frac.parse` refuses `p/0` — and it is read as 0 here so that every value handed to the
+model denotes a rational: `fracLen_ok` in `Props/C14.lean`.) -/
+def fracLen (t : T) : Frac := match t.len with | some f => if f.den = 0 then 0 else f | none => 0
 
 /-- key of a leaf = taxon accession index (the handler refuses trees whose leaves lack a taxon, as the
 library's `assert desc1.taxon is not None` does) -/
@@ -169,6 +171,13 @@ def meanPairwise (val : Entry κ α → α) (norm : α) (keep : κ → Bool) (es
 def minList (m : α) : List α → α
   | [] => m
   | d :: ds => if d < m then minList d ds else minList m ds
+
+/-- `dmatrix[a][b]` as the summaries read it from the compiled table (`val` picks the weighted or the edge-count value).
+A missing cell is a `KeyError` in the library; under `Good` it cannot happen (`pdm_lookup_spec`), the model reads 0. -/
+def cellOf [DecidableEq κ] (val : Entry κ α → α) (tbl : List (Entry κ α)) (a b : κ) : α :=
+  match tbl.find? (fun e => e.a = a ∧ e.b = b) with
+  | some e => val e
+  | none => 0
 
 /-- `_calculate_mean_nearest_taxon_distance` over `_get_taxon_to_all_other_taxa_comparisons`;
 `cell a b` reads `dmatrix[a][b]` -/
